@@ -259,6 +259,7 @@ type Abstract struct {
 	CreateErr bool
 	CreateID  string
 	CertOK    bool
+	DocTree   string // the inflated payload as the resolved element tree (Coq term), "None" when it is not available
 }
 
 func formValues(cp *http.Request) (errp bool, vals [6]string) {
@@ -315,6 +316,13 @@ func ComputeAbstract(r *http.Request, st *idp.Storage, meta *idp.SPMeta, fault *
 		return a
 	}
 	dec, err := samlxml.DecodeAuthNRequest(a.Form[2], a.Form[1])
+	// the payload the decoder parses, as Go's tokenizer resolves it (an oracle of the model of Unmarshal)
+	a.DocTree = "None"
+	if data, derr := samlxml.InflateAndDecode(a.Form[2], true, a.Form[1]); derr == nil {
+		if root, trailing, terr := idp.ResolvedTree(data); terr == nil && !root.HasContent("BaseID") && asciiCerts(root) {
+			a.DocTree = fmt.Sprintf("(Some (%s, %s))", coqgen.Bool(trailing), root.Coq())
+		}
+	}
 	if err == nil {
 		a.Dec = dec
 		if dec.Conditions != nil {
@@ -338,6 +346,27 @@ func ComputeAbstract(r *http.Request, st *idp.Storage, meta *idp.SPMeta, fault *
 		})
 	}
 	return a
+}
+
+// asciiCerts: certificate texts are compared modulo white space; the model's notion of white space is the ASCII one
+func asciiCerts(n *idp.RNode) bool {
+	if n.Local == "X509Certificate" {
+		for _, k := range n.Kids {
+			if s, ok := k.(string); ok {
+				for i := 0; i < len(s); i++ {
+					if s[i] >= 0x80 {
+						return false
+					}
+				}
+			}
+		}
+	}
+	for _, k := range n.Kids {
+		if c, ok := k.(*idp.RNode); ok && !asciiCerts(c) {
+			return false
+		}
+	}
+	return true
 }
 
 // ---- Coq rendering ----
